@@ -409,6 +409,7 @@ def run(ctx: RuleContext, p: Program) -> None:
     ctx.try_rule(rule_ed_once, p, 'ED-ONCE')
     ctx.try_rule(rule_ed_sets, p, 'ED-SETS')
     ctx.try_rule(rule_ed_fresh, p, fns, 'ED-FRESH')
+    ctx.try_rule(rule_ed_order, p, fns, 'ED-ORDER')
     ctx.not_decided += ['glob matching semantics', 'filesystem races', 'what the parser/printer produce (C01)']
     ctx.assumptions += ['Python io newline semantics: newline=None translates on read and to os.linesep on write; '
                         'any other value disables translation on read; \'\' and \'\\n\' write verbatim',
@@ -499,3 +500,51 @@ def rule_ed_fresh(ctx: RuleContext, p: Program, fns: list[FuncInfo], rid: str) -
                       note=f'sources: {sorted({t for k, t in src if k == "fresh"})[:3]}')
     if n < 2:
         raise AnalysisError(f'ED-FRESH: only {n} yielding sessions found in editor.py')
+
+
+# ====================================================================== ED-ORDER (added after seeded round 4)
+def rule_ed_order(ctx: RuleContext, p: Program, fns: list[FuncInfo], rid: str) -> None:
+    ctx.rule(rid, 'after the yield of edit_file_recursive every deletion precedes every write (a file that was dropped from the mapping and put back '
+                  'under another spelling of its path is deleted through the old key and must then be re-created through the new one, not the other '
+                  'way round), and no edit session writes a file in place: a text-mode file is replaced by opening it with mode "w", never by '
+                  '"r+" plus truncate(<number of characters>), which cuts a file with multi-byte characters short')
+    n = 0
+    for fn in fns:
+        if not any(isinstance(x, ast.Yield) for x in walk_no_nested(fn.node)):
+            continue
+        seen_yield = False
+        first_write = None
+        for x in walk_no_nested(fn.node):           # source order
+            if isinstance(x, ast.Yield):
+                seen_yield = True
+            if not seen_yield:
+                continue
+            m_ = _is_fs_mutation(x)
+            if m_ is None:
+                continue
+            n += 1
+            is_del = m_.rsplit('.', 1)[-1] in ('unlink', 'remove', 'rmdir', 'rmtree')
+            if not is_del and m_ not in ('os.makedirs', 'os.mkdir', 'mkdir') and first_write is None:
+                first_write = x
+            if is_del and first_write is not None:
+                ctx.fail(rid, f'editor:{fn.qualname}', f'{norm(x)[:60]} after {norm(first_write)[:60]}',
+                         f'`{norm(x)[:80]}` runs after files have been written (`{norm(first_write)[:80]}`): a file removed from the mapping and re-added '
+                         f'under another spelling of the same path is first written and then deleted', f'{fn.module.relpath}:{x.lineno}')
+        for x in walk_no_nested(fn.node):
+            if isinstance(x, ast.Call) and isinstance(x.func, ast.Attribute) and x.func.attr == 'truncate' and x.args:
+                n += 1
+                ctx.fail(rid, f'editor:{fn.qualname}', f'{norm(x)[:60]}',
+                         f'`{norm(x)[:80]}` truncates a text-mode file at a position computed from the text: truncate() counts bytes, len() counts '
+                         f'characters, so a file containing multi-byte characters loses its tail', f'{fn.module.relpath}:{x.lineno}')
+            if isinstance(x, ast.Call):
+                name = dotted(x.func) or ''
+                if name in ('open', 'io.open') or name.rsplit('.', 1)[-1] == 'open':
+                    mode = _open_mode(x, isinstance(x.func, ast.Attribute) and name != 'io.open')
+                    if '+' in mode and 'b' not in mode:
+                        n += 1
+                        ctx.fail(rid, f'editor:{fn.qualname}', f'{norm(x)[:60]}',
+                                 f'`{norm(x)[:80]}` opens the ledger for in-place update in text mode: the new text is written over the old one and the '
+                                 f'remainder has to be cut at a byte position the text API does not give', f'{fn.module.relpath}:{x.lineno}')
+        ctx.ok(rid, f'editor:{fn.qualname}', 'deletions before writes; whole-file writes')
+    if n < 2:
+        raise AnalysisError(f'ED-ORDER: only {n} file-system mutations after a yield')
